@@ -323,6 +323,83 @@ func runBigFields(r *engine.Run) {
 			}
 		}
 	}
+	// year/month carry: a large year and the opposite number of months. MakeDay uses
+	// ym = y + floor(m/12) (15.9.1.12 step 5): NaN is only for a RESULT that has no time value.
+	rawLimit := func(vals []float64, exp string) string {
+		// M: NaN whenever |year| > 1e6 or |month| > 1e7 on the raw fields
+		if math.Abs(vals[0]) > 1e6 || math.Abs(vals[1]) > 1e7 {
+			return "NaN"
+		}
+		return exp
+	}
+	for opi := 0; opi < 2; opi++ {
+		for xi, x := range big {
+			for ci, c := range []float64{0, 5, 12 * 83333} {
+				m := -12*x + c
+				if math.Abs(m) > 1e15 {
+					continue // beyond that y + floor(m/12) is no longer exact in doubles: outside the bound
+				}
+				key := fmt.Sprintf("y%d.%d.%d", opi, xi, ci)
+				vals := []float64{x, m, 1, 0, 0, 0, 0}
+				if !mine(r, key) {
+					continue
+				}
+				call := []interface{}{opi, 7}
+				srcs := make([]string, 7)
+				for i, v := range vals {
+					call = append(call, v)
+					srcs[i] = bigSrc(v)
+				}
+				exp := num(date.FromFields(es5, toArgs(vals)))
+				input := tupleOps[opi] + "(" + strings.Join(srcs, ", ") + ")"
+				if opi == 1 {
+					input += ".getTime()"
+				}
+				r.Begin(key)
+				obs := d.call(func(m *machine) otto.Value { return m.fields }, call...)
+				r.End()
+				r.Eval(exp != "NaN")
+				r.Outcome(obs)
+				if obs == exp {
+					continue
+				}
+				aux := altAux("M", exp, func(string) string { return rawLimit(vals, exp) })
+				r.Mismatch(engine.Mismatch{Key: key, Input: input, Expected: exp, Observed: obs, Aux: aux})
+			}
+		}
+	}
+	for xi, x := range big {
+		for ci, c := range []float64{0, 5, 12 * 83333} {
+			m := -12*x + c + 12*1970
+			if math.Abs(m) > 1e15 {
+				continue
+			}
+			key := fmt.Sprintf("ys.%d.%d", xi, ci)
+			if !mine(r, key) {
+				continue
+			}
+			vals := []float64{x, m}
+			render := func(p float64) string { return "0|" + num(p) + "," + num(p) + "," + num(p) + "|" + fieldsString(p) }
+			exp := render(date.Apply(es5, date.SetUTCFullYear, 0, toArgs(vals)))
+			input := fmt.Sprintf("d = new Date(0); d.setUTCFullYear(%s, %s)", bigSrc(x), bigSrc(m))
+			r.Begin(key)
+			obs := d.call(func(m *machine) otto.Value { return m.hist }, 0.0, 0, int(date.SetUTCFullYear), 2, x, m, otto.UndefinedValue(), otto.UndefinedValue())
+			r.End()
+			r.Eval(!strings.Contains(exp, "NaN,NaN"))
+			r.Outcome(obs)
+			if obs == exp {
+				continue
+			}
+			aux := altAux("M", exp, func(string) string {
+				if math.Abs(x) > 1e6 || math.Abs(m) > 1e7 {
+					return render(math.NaN())
+				}
+				return exp
+			})
+			r.Mismatch(engine.Mismatch{Key: key, Input: input, Expected: exp, Observed: obs, Aux: aux})
+		}
+	}
+	r.Bound("year_month_carry", "year x with month -12x (+0, +5, +12*83333), |month| <= 1e15: Date.UTC, new Date, setUTCFullYear")
 	r.Bound("cancelling_pairs", "field p = x, finer field q = -x * unit(p)/unit(q): all pairs of day..ms in Date.UTC / new Date, all argument pairs of setUTCSeconds/Minutes/Hours")
 	r.Bound("values", fmt.Sprintf("%d: +-{1e7..1e22, 2^31-1..2^31+1, 2^32-1..2^32+1, 2^53-1, 2^53, 2^53+2, 2^63 and neighbours, 2^64, 9.2e12..9.3e12, 8.64e15-1..8.64e15+1, 1e300, MAX_VALUE}", len(big)))
 	r.Bound("tuples", "2 bases x {Date.UTC, new Date} x 7 positions x {full, shortest} arity; base 1970: second field from {-1e8, 1e8, -8.64e15, 8.64e15, -300000, 300000}")
